@@ -819,7 +819,7 @@ class Datetime(Formatter, asset=DATETIME_ASSET, config=DATETIME_CONF, level=10):
         microsecond: int = 0,
         locale: str | None = None,
     ) -> None:
-        self.year = int(year or 1990)
+        self.year = int(year or 1900)
         self.month = int(month or 1)
         self.week = week
         self.weeks = weeks
